@@ -57,14 +57,18 @@ fn oracle_call(frame: &[u8]) -> String {
 
 /// C01 / C07: receive all frames of `wire` with the given chunking; the receive future is
 /// dropped and re-created every time it returns Pending (reads listed in `pending_reads`).
-fn run_recv(wire: &[u8], cuts: &[usize], pending_reads: &[usize]) -> (Vec<String>, Vec<String>) {
+/// `failed_sends`: that many Connection-level sends are attempted first and FAIL (the transport's write half is dead): what the
+/// peer had already sent must still be received - a failed write says nothing about the inbound direction
+fn run_recv(wire: &[u8], cuts: &[usize], pending_reads: &[usize], failed_sends: usize) -> (Vec<String>, Vec<String>) {
     let frames = frames_of(wire);
     let mut expected: Vec<String> = frames.iter().map(|f| oracle_call(f)).collect();
     expected.push("err:eof".into());
     let sock = ScriptedSocket::new(wire, cuts);
     sock.0.borrow_mut().pending_reads = pending_reads.to_vec();
     let script = sock.0.clone();
+    script.borrow_mut().fail_writes = (0..failed_sends).collect();
     let mut conn = zlink_core::Connection::new(sock);
+    for _ in 0..failed_sends { let _ = block_on(conn.send_call(&Call::new(M::C)), 10); }
     let mut got = Vec::new();
     let mut polls = 0usize;
     loop {
@@ -868,11 +872,13 @@ fn search_call(seed: u64, budget: usize) -> Option<Value> {
 // C18: fairness.  Every connection has all its calls available from the start (one pipelined burst each);
 // call `a` = 100 * connection + sequence number.  Expected: no connection is served twice in a row while another
 // connection still has an unserved call (they have all been waiting the whole time).
-fn run_fair(counts: &[usize], cuts: &[usize]) -> Option<String> {
+/// `pads[c]`: every call of connection c is followed by that many blanks inside its frame (legal JSON whitespace): a waiting call
+/// of several hundred bytes - more than one step of the 256-byte read buffer - is as complete and as waiting as a short one
+fn run_fair(counts: &[usize], cuts: &[usize], pads: &[usize]) -> Option<String> {
     SERVED.with(|s| s.borrow_mut().clear());
     let wires: Vec<Vec<u8>> = counts.iter().enumerate().map(|(c, n)| {
         let mut w = Vec::new();
-        for k in 0..*n { w.extend_from_slice(format!(r#"{{"method":"a.B","parameters":{{"a":{}}}}}"#, 100 * c + k).as_bytes()); w.push(0); }
+        for k in 0..*n { w.extend_from_slice(format!(r#"{{"method":"a.B","parameters":{{"a":{}}}}}"#, 100 * c + k).as_bytes()); w.extend(std::iter::repeat(b' ').take(pads.get(c).copied().unwrap_or(0))); w.push(0); }
         w
     }).collect();
     let _ = run_server_opt(&wires, cuts, true); // connections stay open: the set of connections is unchanged
@@ -944,8 +950,10 @@ fn search_fair(seed: u64, budget: usize) -> Option<Value> {
         let n = 2 + rng.below(4);
         let counts: Vec<usize> = (0..n).map(|_| 1 + rng.below(5)).collect();
         let cuts: Vec<usize> = match rng.below(3) { 0 => vec![], 1 => vec![4096], _ => vec![30 + rng.below(200)] };
-        if let Some(why) = run_fair(&counts, &cuts) {
-            return Some(json!({"kind":"fair","counts":counts,"cuts":cuts,"why":why}));
+        // now and then the calls of one or two connections are large (several steps of the read buffer)
+        let pads: Vec<usize> = (0..n).map(|_| if rng.below(4) == 0 { 250 + rng.below(900) } else { 0 }).collect();
+        if let Some(why) = run_fair(&counts, &cuts, &pads) {
+            return Some(json!({"kind":"fair","counts":counts,"cuts":cuts,"pads":pads,"why":why}));
         }
         if it % 4 == 0 {
             // transitions: one or two connections close / stream early, two flood with bursts longer than the bound, the rest have few calls
@@ -1125,13 +1133,14 @@ fn search_recv(seed: u64, budget: usize, cancel: bool) -> Option<Value> {
             _ => vec![1 + rng.below(wire.len())],
         };
         let pending: Vec<usize> = if cancel { (0..rng.below(6)).map(|_| rng.below(12)).collect() } else { vec![] };
+        let failed_sends = if rng.below(6) == 0 { 1 + rng.below(2) } else { 0 };
         let (w2, c2, p2) = (wire.clone(), cuts.clone(), pending.clone());
-        let (exp, got) = match std::panic::catch_unwind(move || run_recv(&w2, &c2, &p2)) {
+        let (exp, got) = match std::panic::catch_unwind(move || run_recv(&w2, &c2, &p2, failed_sends)) {
             Ok(x) => x,
             Err(_) => (vec!["(no panic)".to_string()], vec!["PANIC inside receive_call".to_string()]),
         };
         if exp != got {
-            return Some(json!({"kind":"recv","wire_hex":hex(&wire),"wire_shown":show(&wire),"cuts":cuts,"pending_reads":pending,
+            return Some(json!({"kind":"recv","wire_hex":hex(&wire),"wire_shown":show(&wire),"cuts":cuts,"pending_reads":pending,"failed_sends":failed_sends,
                                "expected":exp,"got":got}));
         }
     }
@@ -1179,8 +1188,9 @@ fn main() {
             let wire = unhex(w["wire_hex"].as_str().unwrap());
             let cuts: Vec<usize> = w["cuts"].as_array().unwrap().iter().map(|x| x.as_u64().unwrap() as usize).collect();
             let pend: Vec<usize> = w["pending_reads"].as_array().map(|a| a.iter().map(|x| x.as_u64().unwrap() as usize).collect()).unwrap_or_default();
+            let failed_sends = w["failed_sends"].as_u64().unwrap_or(0) as usize;
             let (w2, c2, p2) = (wire.clone(), cuts.clone(), pend.clone());
-            let (exp, got) = match std::panic::catch_unwind(move || run_recv(&w2, &c2, &p2)) {
+            let (exp, got) = match std::panic::catch_unwind(move || run_recv(&w2, &c2, &p2, failed_sends)) {
                 Ok(x) => x,
                 Err(_) => (vec!["(no panic)".to_string()], vec!["PANIC inside receive_call".to_string()]),
             };
@@ -1215,8 +1225,9 @@ fn main() {
         Some("fair") => {
             let counts: Vec<usize> = w["counts"].as_array().unwrap().iter().map(|x| x.as_u64().unwrap() as usize).collect();
             let cuts: Vec<usize> = w["cuts"].as_array().unwrap().iter().map(|x| x.as_u64().unwrap() as usize).collect();
-            println!("calls per connection (all available from the start) = {counts:?}, read chunking = {cuts:?}");
-            match run_fair(&counts, &cuts) {
+            let pads: Vec<usize> = w["pads"].as_array().map(|a| a.iter().map(|x| x.as_u64().unwrap() as usize).collect()).unwrap_or_default();
+            println!("calls per connection (all available from the start) = {counts:?}, read chunking = {cuts:?}, blanks behind each call = {pads:?}");
+            match run_fair(&counts, &cuts, &pads) {
                 Some(why) => { println!("{why}\nREPLAY: FAILS on the real code"); std::process::exit(1); }
                 None => println!("REPLAY: passes on the real code"),
             }
